@@ -132,17 +132,17 @@ func (rpSuite) Run(h map[string]string, ops []string) []string {
 			f := strings.Fields(op)
 			switch f[0] {
 			case "add":
-				rp.AddDuration(time.Duration(atoi(f[1])), origin.Add(time.Duration(atoi(f[2]))))
+				rp.AddDuration(time.Duration(atoi(f[1])), timeAt(origin, atoi(f[2])))
 				return "ok"
 			case "snap":
-				s := rp.SnapshotAt(origin.Add(time.Duration(atoi(f[1]))))
+				s := rp.SnapshotAt(timeAt(origin, atoi(f[1])))
 				l := make([]int64, len(s))
 				for i, d := range s {
 					l[i] = int64(d)
 				}
 				return fmtInts(l)
 			case "reset":
-				rp.Reset(origin.Add(time.Duration(atoi(f[1]))))
+				rp.Reset(timeAt(origin, atoi(f[1])))
 				return "ok"
 			case "pub":
 				// the published summary, evaluated now through the Var obtained at the start, must label the sample
